@@ -84,6 +84,60 @@ async fn client_case(d: Duration, reply_at: Option<Duration>) -> Result<(), Stri
     Ok(())
 }
 
+/// C05, "time the request spent queued before transmission counts against the deadline": with an in-flight
+/// maximum of 1, call B (deadline D = 400 ms) waits 200 ms of real time behind call A before it is transmitted
+/// (`Context::deadline` is a std Instant, so the wait has to be real); the timer armed at transmission must then
+/// have about 200 ms left: still pending 100 ms later, failed 300 ms later.
+async fn client_queued_case() -> Result<(), String> {
+    let what = "client: in-flight maximum 1, call B (deadline in 400 ms) queued for 200 ms behind call A";
+    let (tx, mut rx): (ClientEnd, ServerEnd) = transport::channel::unbounded();
+    let mut cfg = client::Config::default();
+    cfg.max_in_flight_requests = 1;
+    let client::NewClient { client, dispatch } = client::new::<String, String, _>(cfg, tx);
+    let dispatch = tokio::spawn(dispatch);
+    let mut ctx_a = context::current();
+    ctx_a.deadline = Instant::now() + Duration::from_secs(3600);
+    let ca = client.clone();
+    let call_a = tokio::spawn(async move { ca.call(ctx_a, "A".to_string()).await });
+    settle().await;
+    let id_a = match rx.next().now_or_never() {
+        Some(Some(Ok(ClientMessage::Request(r)))) => r.id,
+        _ => return Err(format!("C05 {what}: request A was not transmitted")),
+    };
+    let mut ctx_b = context::current();
+    ctx_b.deadline = Instant::now() + Duration::from_millis(400);
+    let cb = client.clone();
+    let call_b = tokio::spawn(async move { cb.call(ctx_b, "B".to_string()).await });
+    settle().await;
+    if rx.next().now_or_never().is_some() {
+        return Err(format!("C11 {what}: request B was transmitted while A holds the only slot"));
+    }
+    std::thread::sleep(Duration::from_millis(200));
+    rx.send(Response { request_id: id_a, message: Ok("reply".to_string()) }).await.map_err(|e| e.to_string())?;
+    settle().await;
+    match rx.next().now_or_never() {
+        Some(Some(Ok(ClientMessage::Request(r)))) if r.message == "B" => {}
+        _ => return Err(format!("C05 {what}: request B was not transmitted once A was answered")),
+    }
+    let t0 = tokio::time::Instant::now();
+    advance_to(t0, Duration::from_millis(100)).await;
+    if call_b.is_finished() {
+        return Err(format!("C05 {what}: B was resolved 100 ms after its transmission, 300 ms into a 400 ms deadline"));
+    }
+    advance_to(t0, Duration::from_millis(300)).await;
+    if !call_b.is_finished() {
+        return Err(format!("C05 {what}: B is still pending 300 ms after its transmission, 500 ms into a 400 ms deadline: the time spent queued was not counted"));
+    }
+    match call_b.await.map_err(|e| e.to_string())? {
+        Err(RpcError::DeadlineExceeded) => {}
+        other => return Err(format!("C05 {what}: expected a deadline-exceeded error for B, got {other:?}")),
+    }
+    let _ = call_a.await;
+    drop(client);
+    dispatch.abort();
+    Ok(())
+}
+
 struct Flag(Arc<AtomicBool>);
 impl Drop for Flag {
     fn drop(&mut self) {
@@ -194,9 +248,13 @@ async fn deadlines_enforced_and_never_early() {
             }
         }
     }
-    println!("VERIF-BOUNDED deadlines evaluations={evaluations} bound=4 deadlines x (3 reply times | 3 handler finish times x 2 channel stacks)");
+    evaluations += 1;
+    if let Err(e) = client_queued_case().await {
+        failures.push(e);
+    }
+    println!("VERIF-BOUNDED deadlines evaluations={evaluations} bound=4 deadlines x (3 reply times | 3 handler finish times x 2 channel stacks) + 1 queued-before-transmission scenario");
     let mut kept: Vec<String> = vec![];
-    for tag in ["C05", "C06"] {
+    for tag in ["C05", "C06", "C11"] {
         kept.extend(failures.iter().filter(|f| f.starts_with(tag)).take(2).cloned());
     }
     for f in &kept {
